@@ -21,14 +21,14 @@ STATEMENTS = {
     "hasStringFn": ("Iox2.C18.has_string_fn_partial", "stringFnExceptions"),
     "namesNonempty": ("Iox2.C18.names_nonempty_partial", "nameExceptions"),
     "namesDistinct": ("Iox2.C18.names_distinct_partial", "duplicateNameExceptions"),
-    "mappingTotal": ("Iox2.C18.mapping_total_partial", "totalityExceptions"),
-    "mappingInjective": ("Iox2.C18.mapping_injective_partial", "injectivityExceptions"),
+    "mappingTotal": ("Iox2.C18.mapping_total", None),
+    "mappingInjective": ("Iox2.C18.mapping_injective", None),
     "mappingOnto": ("Iox2.C18.mapping_onto_partial", "ontoExceptions"),
 }
 
-# Findings of this check on the pinned tree, reported to the maintainer of known_findings.json; until they are
-# entered there they are registered here so that the unchanged tree yields KNOWN-FINDING lines, not alarms.
-# Part A entries are generated from the exception lists of C18.lean (exact keys, one per entry).
+# All findings of this check are registered in /verif/known_findings.json (property C18): Part A under
+# `table:<statement>:<enum>` (one per enum, generated from the exception lists of C18.lean), Part B under
+# `ffi*:oracle:…`.  Nothing is exempted locally.
 LOCAL_KNOWN_B = []   # registered in /verif/known_findings.json (property C18, keys ffi*:oracle:…)
 
 
@@ -174,8 +174,8 @@ def classify_oracle(op, out):
     m = re.match(r"world (\w+) differs from the Rust world: (.*) vs (.*)$", first)
     if m:
         a, b = m.group(2), m.group(3)
-        if opn == "scopy" and a.startswith("err:iox2_send_error_e::") and b.startswith("err:iox2_send_error_e::LOAN_ERROR_"):
-            return "oracle:scopy-returns-loan-error-code"
+        # (the former class `scopy-returns-loan-error-code` was repaired in /repo 5dd19c8: a send_copy error-code
+        #  disagreement is an ordinary `worlds-differ:scopy` violation again)
         mask = lambda s: re.sub(r":h[0-9a-f]*:", ":h*:", s)
         if opn == "recv" and a != b and mask(a) == mask(b):
             return "oracle:user-header-not-initialised-by-c-loan"
